@@ -468,7 +468,11 @@ func (f *Frame) convert(x *ssa.Convert) {
 			if b, ok := sl.Elem().Underlying().(*types.Basic); ok && b.Kind() == types.Uint8 {
 				arr := fmt.Sprintf("(select %s (sl_base %s))", e.hget(f.heap, e.S.elemVar(sl.Elem())), v.T)
 				e.assert(fmt.Sprintf("(and (= (s_off %s) 0) (= (s_len %s) (sl_len %s)))", n, n, v.T))
-				e.assert(fmt.Sprintf("(forall ((k Int)) (=> (and (<= 0 k) (< k (s_len %s))) (= (select (s_arr %s) k) (select %s (+ (sl_off %s) k)))))", n, n, arr, v.T))
+				if e.con == nil || e.con.StringsExact || !e.con.NoConvContents {
+					e.assert(fmt.Sprintf("(forall ((k Int)) (=> (and (<= 0 k) (< k (s_len %s))) (= (select (s_arr %s) k) (select %s (+ (sl_off %s) k)))))", n, n, arr, v.T))
+				} else {
+					e.note("string([]byte) conversions: only the length of the result is modelled (noconvcontents)")
+				}
 			} else {
 				e.assert(fmt.Sprintf("(and (= (s_off %s) 0) (<= 0 (s_len %s)))", n, n))
 			}
@@ -980,8 +984,8 @@ func (f *Frame) framedVar(hv string) bool {
 // matchPreserves: heap variable names or prefix patterns ending in '*'.
 func matchPreserves(pats []string, hv string) bool {
 	for _, p := range pats {
-		if p == hv {
-			return true
+		if p == hv || strings.HasPrefix(hv, p+":") {
+			return true // "E!Int" names the element arrays of every Int-sorted element type
 		}
 		if strings.HasSuffix(p, "*") && strings.HasPrefix(hv, strings.TrimSuffix(p, "*")) {
 			return true
